@@ -46,3 +46,116 @@ Section SimInv.
     unfold state_after. induction ops as [|o ops IH]; intros s H; cbn [fold_left]; [exact H|]. apply IH, step_P, H.
   Qed.
 End SimInv.
+
+(* ---- every kernel run is a sequence of handler invocations; its signal outputs are those invocations' signals ---- *)
+Definition eff_sigs (es : list eff) : list eff :=
+  filter (fun e => match e with ESig _ _ _ => true | _ => false end) es.
+Definition out_sigs (os : list out) : list eff :=
+  flat_map (fun o => match o with OSignal _ ob sg p => [ESig ob sg p] | _ => [] end) os.
+
+Lemma eff_sigs_app a b : eff_sigs (a ++ b) = eff_sigs a ++ eff_sigs b.
+Proof. unfold eff_sigs. apply filter_app. Qed.
+Lemma out_sigs_app a b : out_sigs (a ++ b) = out_sigs a ++ out_sigs b.
+Proof. unfold out_sigs. apply flat_map_app. Qed.
+
+Lemma apply_effs_sigs now : forall es tm sq, out_sigs (snd (apply_effs now tm sq es)) = eff_sigs es.
+Proof.
+  unfold out_sigs, eff_sigs.
+  induction es as [|e es IH]; intros tm sq; cbn [apply_effs]; [reflexivity|].
+  destruct e as [m|m|ob sg p|tid ms|tid|rs]; cbn [filter].
+  - specialize (IH tm sq). destruct (apply_effs now tm sq es) as [[tm' sq'] o]. cbn [snd flat_map app] in *. exact IH.
+  - specialize (IH tm sq). destruct (apply_effs now tm sq es) as [[tm' sq'] o]. cbn [snd flat_map app] in *. exact IH.
+  - specialize (IH tm sq). destruct (apply_effs now tm sq es) as [[tm' sq'] o]. cbn [snd flat_map app] in *. rewrite IH. reflexivity.
+  - apply IH.
+  - apply IH.
+  - specialize (IH tm sq). destruct (apply_effs now tm sq es) as [[tm' sq'] o]. cbn [snd flat_map app] in *. exact IH.
+Qed.
+
+Section SimLife.
+  Variables (St api : Type).
+  Variable handle : Z -> St -> event api -> St * list eff.
+
+  Fixpoint life (evs : list (Z * event api)) (st : St) : St * list eff :=
+    match evs with
+    | [] => (st, [])
+    | (now, ev) :: evs' =>
+        let '(st1, e1) := handle now st ev in
+        let '(st2, e2) := life evs' st1 in (st2, e1 ++ e2)
+    end.
+
+  Lemma life_app a b st :
+    life (a ++ b) st = let '(st1, e1) := life a st in let '(st2, e2) := life b st1 in (st2, e1 ++ e2).
+  Proof.
+    revert st. induction a as [|[now ev] a IH]; intro st; cbn [app life].
+    - destruct (life b st) as [st2 e2]. reflexivity.
+    - destruct (handle now st ev) as [st1 e1]. rewrite IH. destruct (life a st1) as [st2 e2].
+      destruct (life b st2) as [st3 e3]. rewrite app_assoc. reflexivity.
+  Qed.
+
+  (* the simulation relation: same state, same signals *)
+  Definition covers (evs : list (Z * event api)) (st : St) (s' : sim St) (os : list out) : Prop :=
+    fst (life evs st) = s_st s' /\ eff_sigs (snd (life evs st)) = out_sigs os.
+
+  Lemma dispatch_covers (s : sim St) ev :
+    covers [(s_now s, ev)] (s_st s) (fst (dispatch St api handle s ev)) (snd (dispatch St api handle s ev)).
+  Proof.
+    unfold covers, dispatch. cbn [life]. destruct (handle (s_now s) (s_st s) ev) as [st' es].
+    pose proof (apply_effs_sigs (s_now s) es (s_tm s) (s_seq s)) as A.
+    destruct (apply_effs (s_now s) (s_tm s) (s_seq s) es) as [[tm' sq'] o]. cbn [fst snd] in *.
+    rewrite app_nil_r. split; [reflexivity|symmetry; exact A].
+  Qed.
+
+  Lemma covers_trans e1 e2 st (s1 : sim St) o1 (s2 : sim St) o2 :
+    covers e1 st s1 o1 -> covers e2 (s_st s1) s2 o2 -> covers (e1 ++ e2) st s2 (o1 ++ o2).
+  Proof.
+    unfold covers. intros [A1 A2] [B1 B2]. rewrite life_app. destruct (life e1 st) as [st1 x1]. cbn [fst snd] in *. subst st1.
+    destruct (life e2 (s_st s1)) as [st2 x2]. cbn [fst snd] in *. split; [exact B1|].
+    rewrite eff_sigs_app, out_sigs_app, A2, B2. reflexivity.
+  Qed.
+
+  Lemma fire_due_covers : forall fuel t strict late (s : sim St),
+    exists evs, covers evs (s_st s) (fst (fire_due St api handle fuel t strict late s)) (snd (fire_due St api handle fuel t strict late s)).
+  Proof.
+    induction fuel as [|f IH]; intros t strict late s; cbn [fire_due].
+    - exists []. split; reflexivity.
+    - destruct (tm_next (s_tm s) t strict None) as [[[tid d] sq]|]; [|exists []; split; reflexivity].
+      match goal with |- context [dispatch St api handle ?s1 ?ev] =>
+        pose proof (dispatch_covers s1 ev) as D; destruct (dispatch St api handle s1 ev) as [s2 o1] end.
+      cbn [s_st s_now fst snd] in D.
+      destruct (IH t strict late s2) as [evs C]. destruct (fire_due St api handle f t strict late s2) as [s3 o2]. cbn [fst snd] in *.
+      eexists. eapply covers_trans; [exact D|exact C].
+  Qed.
+
+  Lemma step_covers fuel (s : sim St) (o : aop api) :
+    exists evs, covers evs (s_st s) (fst (step St api handle fuel s o)) (snd (step St api handle fuel s o)).
+  Proof.
+    destruct o as [m|t|t|t|a]; cbn [step].
+    - eexists. apply dispatch_covers.
+    - destruct (t <? s_now s); [exists []; split; reflexivity|].
+      destruct (fire_due_covers fuel t false false s) as [evs C].
+      destruct (fire_due St api handle fuel t false false s) as [s' o]. exists evs. exact C.
+    - destruct (t <? s_now s); [exists []; split; reflexivity|].
+      destruct (fire_due_covers fuel t true false s) as [evs C].
+      destruct (fire_due St api handle fuel t true false s) as [s' o]. exists evs. exact C.
+    - destruct (t <? s_now s); [exists []; split; reflexivity|].
+      destruct (fire_due_covers fuel t false true (set_now St t s)) as [evs C]. exists evs. exact C.
+    - eexists. apply dispatch_covers.
+  Qed.
+
+  (* all outputs of a script, without the polls the harness interleaves *)
+  Fixpoint run_outs (fuel : nat) (s : sim St) (ops : list (aop api)) : sim St * list out :=
+    match ops with
+    | [] => (s, [])
+    | o :: ops' => let '(s1, o1) := step St api handle fuel s o in
+                   let '(s2, o2) := run_outs fuel s1 ops' in (s2, o1 ++ o2)
+    end.
+
+  Theorem run_covers fuel : forall ops (s : sim St),
+    exists evs, covers evs (s_st s) (fst (run_outs fuel s ops)) (snd (run_outs fuel s ops)).
+  Proof.
+    induction ops as [|o ops IH]; intro s; cbn [run_outs]; [exists []; split; reflexivity|].
+    destruct (step_covers fuel s o) as [e1 C1]. destruct (step St api handle fuel s o) as [s1 o1]. cbn [fst snd] in C1.
+    destruct (IH s1) as [e2 C2]. destruct (run_outs fuel s1 ops) as [s2 o2]. cbn [fst snd] in *.
+    eexists. eapply covers_trans; eauto.
+  Qed.
+End SimLife.
